@@ -98,9 +98,24 @@ func (fs *FS) setFile(path string, file FileRecord) error {
 		err = fs.setFileTxn(txn, path, file, contents)
 	}
 	if err == nil {
-		_, err = txn.Commit(context.Background())
+		err = commitTxn(txn)
 	}
 	return err
+}
+
+// commitTxn commits 'txn' and returns the first error among its operations' results, if any:
+// a Set the store did not accept must not be reported as success.
+func commitTxn(txn Transaction) error {
+	results, err := txn.Commit(context.Background())
+	if err != nil {
+		return err
+	}
+	for _, result := range results {
+		if result.Err != nil {
+			return result.Err
+		}
+	}
+	return nil
 }
 
 func (fs *FS) setFileTxn(txn Transaction, path string, file FileRecord, contents blob.Blob) error {
